@@ -1,0 +1,46 @@
+//go:build verif
+
+// Contracts for package packages, checked by /verif/gocv (comment-only file; no code).
+
+package packages
+
+// ---- C05: placing a program in a package renames its predicates consistently ------------------------------------
+// The name a locally defined predicate gets inside package pkg.
+//@ spec func qualified(pkg string, s string) string = pkg == "" ? s : sprintf("%s.%s", pkg, s)
+
+// An atom over a locally defined predicate is renamed (arguments untouched); any other atom is returned as it is.
+//@ func (p *Package) updatedAtom(a, definedIdentifier, usedPackages)
+//@   requires p != nil
+//@   opt nosafety
+//@   modifies nothing
+//@   ensures err == nil ==> result.Args == old(a).Args && result.Predicate.Arity == old(a).Predicate.Arity
+//@   ensures err == nil && old(a).Predicate in definedIdentifier ==> result.Predicate.Symbol == qualified(p.Name, old(a).Predicate.Symbol)
+//@   ensures err == nil && old(a).Predicate !in definedIdentifier ==> result == old(a)
+
+// The atom a premise mentions: bare, negated, or under a temporal annotation/operator.
+//@ spec func tlit(t ast.Term) ast.Term = (t as ast.TemporalLiteral).Literal
+//@ spec func mentions(t ast.Term) bool = t is ast.Atom || t is ast.NegAtom || t is ast.TemporalAtom || (t is ast.TemporalLiteral && (tlit(t) is ast.Atom || tlit(t) is ast.NegAtom))
+//@ spec func negated(t ast.Term) bool = t is ast.NegAtom || (t is ast.TemporalLiteral && tlit(t) is ast.NegAtom)
+//@ spec func matom(t ast.Term) ast.Atom = t is ast.Atom ? (t as ast.Atom) : (t is ast.NegAtom ? (t as ast.NegAtom).Atom : (t is ast.TemporalAtom ? (t as ast.TemporalAtom).Atom : (tlit(t) is ast.Atom ? (tlit(t) as ast.Atom) : (tlit(t) as ast.NegAtom).Atom)))
+// Every mention of a locally defined predicate is renamed, whatever wraps it; the wrapping itself is kept.
+//@ spec func premOK(pkg string, defined map[ast.PredicateSym]bool, o ast.Term, n ast.Term) bool =
+//@      mentions(o) && matom(o).Predicate in defined ==>
+//@         mentions(n) && negated(o) == negated(n) && (o is ast.TemporalLiteral) == (n is ast.TemporalLiteral) && (o is ast.TemporalAtom) == (n is ast.TemporalAtom) &&
+//@         matom(n).Args == matom(o).Args && matom(n).Predicate.Arity == matom(o).Predicate.Arity &&
+//@         matom(n).Predicate.Symbol == qualified(pkg, matom(o).Predicate.Symbol)
+
+//@ func (p *Package) declarationMappings()
+//@   trusted
+//@   requires p != nil
+//@   modifies nothing
+
+//@ func (p *Package) Clauses()
+//@   requires p != nil
+//@   opt nosafety
+//@   loop 3 invariant len(clause.Premises) == len(u.Clauses[rangeindex#2].Premises)
+//@   loop 3 invariant forall j int :: 0 <= j && j < rangeindex#3 + 1 ==> premOK(p.Name, definedIdentifier, u.Clauses[rangeindex#2].Premises[j], clause.Premises[j])
+//@   loop 3 invariant forall j int :: rangeindex#3 < j && j < len(clause.Premises) ==> clause.Premises[j] == u.Clauses[rangeindex#2].Premises[j]
+//@   loop 3 atexit forall j int :: 0 <= j && j < len(clause.Premises) ==> premOK(p.Name, definedIdentifier, u.Clauses[rangeindex#2].Premises[j], clause.Premises[j])
+//@   loop 3 invariant clause.Head.Predicate.Symbol == qualified(p.Name, u.Clauses[rangeindex#2].Head.Predicate.Symbol) && clause.Head.Args == u.Clauses[rangeindex#2].Head.Args
+//@   loop 3 atexit clause.Head.Predicate.Symbol == qualified(p.Name, u.Clauses[rangeindex#2].Head.Predicate.Symbol) && clause.Head.Args == u.Clauses[rangeindex#2].Head.Args
+//@   guard return in loop 1: err != nil
